@@ -124,8 +124,8 @@ impl Prop for C16 {
                                 let at_use = model_line_at(fi, line)
                                     .map(|li| uses.get(&s).map(|u| u.contains(&(fi, li))).unwrap_or(false))
                                     .unwrap_or(false);
-                                if named.is_empty() {
-                                    why = format!("error {:?} does not name an undefined label", d.title);
+                                if named.is_empty() || !d.title.contains(s.as_str()) {
+                                    why = format!("error {:?} is located at the occurrence of {s:?} but does not name that label", d.title);
                                 } else if !at_use {
                                     why = format!("error {:?} designates {s:?} at a place that is not a use of it", d.title);
                                 } else {
